@@ -39,6 +39,7 @@ PartialSelShape(idx, s) ==
     [] idx.kind = "slice" -> <<idx.hi - idx.lo>> \o Tail(s)
     [] idx.kind = "intarr" -> <<Len(idx.rows)>> \o Tail(s)
     [] idx.kind = "boolarr" -> <<Len(idx.rows)>> \o Tail(s)
+    [] idx.kind = "sslice" -> <<Len(idx.rows)>> \o Tail(s)     \* a slice with a step: rows = range(lo, hi, step) in that order
     [] idx.kind = "tuple" -> SubSeq(s, 3, Len(s))
 SemShape(q) ==
   CASE q.k \in {"aff", "cadd", "perm", "flip", "ident", "scan"} -> q.shape
@@ -95,7 +96,7 @@ DeclCond(q) ==
 PartialSel(idx, s) ==
   CASE idx.kind = "int" -> SelAxis(s, 1, NormAxis(idx.i, s[1]), NormAxis(idx.i, s[1]) + 1)
     [] idx.kind = "slice" -> SelAxis(s, 1, idx.lo, idx.hi)
-    [] idx.kind \in {"intarr", "boolarr"} ->
+    [] idx.kind \in {"intarr", "boolarr", "sslice"} ->
          LET blocks == [j \in 1..Len(idx.rows) |-> SelAxis(s, 1, idx.rows[j], idx.rows[j] + 1)]
              bl == Prod(Tail(s))
          IN [t \in 1..(Len(idx.rows) * bl) |-> blocks[((t - 1) \div bl) + 1][((t - 1) % bl) + 1]]
